@@ -26,7 +26,7 @@ STOP == VSent("STOP")
 
 Cell(cls, items) == [cls |-> cls, items |-> items]
 
-MapClasses == {"dict", "odict", "obj"}
+MapClasses == {"dict", "odict", "obj", "cobj"}      \* cobj: an attribute object that is also callable
 SeqClasses == {"list", "tuple", "set", "frozenset"}
 IsRef(v) == v.k = "ref"
 ClsOf(heap, v) == IF IsRef(v) THEN heap[v.a].cls ELSE v.k    \* "int", "str", "none", ...
@@ -94,7 +94,7 @@ GetItem(heap, cur, arg) ==
 \* the universes never use names that are methods of the builtin types)
 GetAttr(heap, cur, name) ==
   IF name.k # "str" THEN Exc("TypeError")
-  ELSE IF IsRef(cur) /\ heap[cur.a].cls = "obj" THEN
+  ELSE IF IsRef(cur) /\ heap[cur.a].cls \in {"obj", "cobj"} THEN
     LET c == heap[cur.a] IN
     IF HasKey(c.items, name) THEN Ok(Lookup(c.items, name)) ELSE Exc("AttributeError")
   ELSE Exc("AttributeError")
